@@ -133,7 +133,7 @@ func (n *Node) DrawSpec(t *rapid.T, o GenOpts, flags map[string]bool) Spec {
 		if pc > cert && rapid.IntRange(0, 2).Draw(t, "agg") == 0 {
 			// legal range: (certified, min(precommitted, nextChange-1)]
 			hi := pc
-			if nh, err := n.Exec.VerifLiskBFT().API().NextHeightBFTParameters(n.Store(), cert+1); err == nil && nh-1 < hi {
+			if nh, ok := n.NextParamHeight(cert + 1); ok && nh-1 < hi {
 				hi = nh - 1
 			}
 			if hi > cert {
